@@ -7,7 +7,8 @@ Open Scope Z_scope.
 
 (* ---- grammar ------------------------------------------------------------------------------------- *)
 Inductive recv := RRef | RMut | ROwn.
-(* leaf types by index: 0 u8,1 u16,2 u32,3 u64,4 usize,5 i32,6 i64,7 bool,8 f64 ; 15 = () (only as Result payload) *)
+(* leaf types by index: 0 u8,1 u16,2 u32,3 u64,4 usize,5 i32,6 i64,7 bool,8 f64, 9 *const u8 (a raw pointer: no null niche, so
+   Option<*const u8> is wrapped like Option<u32>) ; 15 = () (only as Result payload) *)
 Definition leaf := Z.
 
 Inductive ashape :=                    (* argument shapes *)
@@ -147,7 +148,7 @@ Definition dec_rshape (z : Z) : rshape :=
   else QResIoErr.
 Fixpoint dec_args (n : nat) (l : list Z) : list (ashape * leaf) :=
   match n, l with
-  | S n, s :: lf :: r => (dec_ashape s, lf mod 9) :: dec_args n r
+  | S n, s :: lf :: r => (dec_ashape s, lf mod 10) :: dec_args n r
   | _, _ => []
   end.
 Definition dec_method (row : list Z) : option method :=
@@ -157,7 +158,7 @@ Definition dec_method (row : list Z) : option method :=
       let im := im mod 4 in
       (* receiver field: low 2 bits = receiver kind, bit 2 (+4) = #[vtbl_only], bit 3 (+8) = the method also carries a doc comment and an
          unrelated attribute — which changes nothing *)
-      Some (mkm (dec_recv (r mod 4)) (if im =? 1 then IOn else if im =? 2 then IOff else IDefault) (dec_rshape rt) (rl mod 9) (dec_args (zn n) args) (Z.testbit r 2))
+      Some (mkm (dec_recv (r mod 4)) (if im =? 1 then IOn else if im =? 2 then IOff else IDefault) (dec_rshape rt) (rl mod 10) (dec_args (zn n) args) (Z.testbit r 2))
   | _ => None
   end.
 Fixpoint dec_methods (rows : list (list Z)) : option (list method) :=
